@@ -144,10 +144,6 @@ inductive DeepOk : Val → Prop
   | list (xs) : lenOk xs.length → (∀ x ∈ xs, DeepOk x) → DeepOk (.list xs)
   | stream (xs) : lenOk xs.length → (∀ x ∈ xs, DeepOk x) → DeepOk (.stream xs)
 
-def isIndexStep : Ix → Bool
-  | .index _ => true
-  | .slice _ _ => false
-
 theorem mapOut_congr {α β} (f g : α → Out β) (l : List α) (h : ∀ e ∈ l, f e = g e) :
     mapOut f l = mapOut g l := by
   induction l with
@@ -244,27 +240,23 @@ theorem set_str (bs : List Nat) (i v : Val) (rest : List Ix) (every : Bool) (hl 
 
 /-- **set_index_refines** — for every lvalue path (any mix of index steps, and slice steps under
 `every`) into any nesting of lists, `set_index` of the code computes what the Spec's `setPath`
-computes: each index step addresses `pyIndex len i`, each slice step the clamped Python range. -/
-theorem set_index_refines (ixs : List Ix) (lhs v : Val) (every : Bool) (hok : DeepOk lhs)
-    (hp : every = true ∨ ∀ ix ∈ ixs, isIndexStep ix = true) :
+computes: each index step addresses `pyIndex len i`, each slice step the clamped Python range;
+a slice step without `every` raises. -/
+theorem set_index_refines (ixs : List Ix) (lhs v : Val) (every : Bool) (hok : DeepOk lhs) :
     setIndex lhs ixs (some v) every = setPath lhs ixs v every := by
   induction ixs generalizing lhs with
   | nil => simp [setIndex, setPath]
   | cons fi rest ih =>
-    have hp' : every = true ∨ ∀ ix ∈ rest, isIndexStep ix = true := by
-      rcases hp with h | h
-      · exact .inl h
-      · exact .inr fun ix hix => h ix (by simp [hix])
     cases fi with
     | index i =>
       cases hok with
       | list xs hl hx =>
         simp only [setIndex, bind_ok, setPath]
-        rw [set_step_index xs i v rest every hl fun x hxm => ih x (hx x hxm) hp']
+        rw [set_step_index xs i v rest every hl fun x hxm => ih x (hx x hxm)]
         cases asInt i <;> rfl
       | stream xs hl hx =>
         simp only [setIndex, bind_ok, setPath]
-        rw [set_step_index xs i v rest every hl fun x hxm => ih x (hx x hxm) hp']
+        rw [set_step_index xs i v rest every hl fun x hxm => ih x (hx x hxm)]
         cases asInt i <;> rfl
       | vec xs hl =>
         simp only [setIndex, bind_ok, setPath]
@@ -299,18 +291,19 @@ theorem set_index_refines (ixs : List Ix) (lhs v : Val) (every : Bool) (hok : De
       | str bs hl => exact set_str bs i v rest every hl
       | _ => simp [setIndex, setPath]
     | slice lo hi =>
-      rcases hp with he | hn
-      · subst he
+      cases every with
+      | true =>
         cases hok with
         | list xs hl hx =>
           simp only [setIndex, bind_ok, setPath, if_true, Bool.not_true, Bool.false_eq_true, if_false]
-          rw [set_step_slice xs lo hi v rest hl fun x hxm => ih x (hx x hxm) (.inl rfl)]
+          rw [set_step_slice xs lo hi v rest hl fun x hxm => ih x (hx x hxm)]
         | stream xs hl hx =>
           simp only [setIndex, bind_ok, setPath, if_true, Bool.not_true, Bool.false_eq_true, if_false]
-          rw [set_step_slice xs lo hi v rest hl fun x hxm => ih x (hx x hxm) (.inl rfl)]
+          rw [set_step_slice xs lo hi v rest hl fun x hxm => ih x (hx x hxm)]
         | _ => simp [setIndex, setPath]
-      · have := hn (.slice lo hi) (by simp)
-        simp [isIndexStep] at this
+      | false =>
+        -- plain slice assignment is not part of the language: a type error on both sides
+        cases hok <;> simp [setIndex, setPath]
 
 example : DeepOk (.list [.list [.int 1, .int 2], .list [.int 3]]) := by
   refine .list _ (by decide) ?_
